@@ -198,13 +198,18 @@ Section Api.
         end
     end.
 
-  Definition sk_split (sk : F) (threshold limit : nat) (seed : bytes) : M (res (list share)) :=
-    if Nat.ltb 255 limit then ret_err VsssError          (* blsful: one-byte identifiers *)
-    else if Nat.ltb limit threshold then ret_err VsssError
+  (* vsss_rs::shamir::split_secret(threshold, limit, secret, rng), the generator having given k scalars *)
+  Definition vsss_split_secret (sk : F) (threshold limit : nat) (seed : bytes) (k : nat)
+    : M (res (list share)) :=
+    if Nat.ltb limit threshold then ret_err VsssError
     else if Nat.ltb threshold 2 then ret_err VsssError
     else
-      cs <- fill_coeffs (threshold - 1) seed 0 ;;
+      cs <- fill_coeffs (threshold - 1) seed k ;;
       Val (create_shares (sk :: cs) 1 limit).
+
+  Definition sk_split (sk : F) (threshold limit : nat) (seed : bytes) : M (res (list share)) :=
+    if Nat.ltb 255 limit then ret_err VsssError          (* blsful: one-byte identifiers *)
+    else vsss_split_secret sk threshold limit seed 0.
 
   (* ---------- proofs of knowledge ---------- *)
   Variable ent : nat -> bytes.
